@@ -810,6 +810,12 @@ impl Element {
                 let model = self.model()?;
                 let version = self.min_version()?;
                 let mut element = self.0.write();
+                // the new reference must be acceptable as the character data of this element; nothing has been changed yet
+                if !element.accepts_character_data(&CharacterData::String(new_ref.clone()), version) {
+                    return Err(AutosarDataError::IncorrectContentType {
+                        element: element.element_name(),
+                    });
+                }
                 // set the DEST attribute first - this could fail if the target element has the wrong type
                 if element
                     .set_attribute_internal(AttributeName::Dest, CharacterData::Enum(enum_item), version)
